@@ -135,6 +135,7 @@ func resetCaches() {
 	rolesCache = nil
 	closeCache = map[*FuncInfo]*closeAnalysis{}
 	predCache = map[*types.Func]*predSummary{}
+	helperMemo = map[string]*helperSummary{}
 }
 
 // buildConfigs are the build configurations that could change the set of files
